@@ -10,6 +10,10 @@ FEATS = [("kernel", {"openat2": True}), ("emulated", {"openat2": False})]
 RENAME_FLAGS = {"": 0, "NOREPLACE": 1, "EXCHANGE": 2}
 
 
+def rflags(op):
+    return op.get("raw") or RENAME_FLAGS.get(op["flag"], 0)
+
+
 def cf_flags(op):
     fl = O["PATH"] if op["opath"] else O[op["acc"]]
     if op["excl"]:
@@ -31,7 +35,7 @@ def lib_call(c):
         return dict(op="create_file", path=path, oflags=cf_flags(op), mode=0o640)
     if o in ("remove_file", "remove_dir"):
         return dict(op=o, path=path)
-    return dict(op="rename", src=path, dst=path2, flags=RENAME_FLAGS[op["flag"]])
+    return dict(op="rename", src=path, dst=path2, flags=rflags(op))
 
 
 def kref_call(c):
@@ -62,7 +66,7 @@ def kref_call(c):
     else:
         if sp2["name"] == "<none>":
             return None
-        d.update(sys="rename", dir2="/".join(sp2["dir"]), name2=sp2["name"], flags=RENAME_FLAGS[op["flag"]])
+        d.update(sys="rename", dir2="/".join(sp2["dir"]), name2=sp2["name"], flags=rflags(op))
     return d
 
 
